@@ -31,7 +31,7 @@ MANIFEST_INFO = {
     "engine": "B",
     "design_ref": "DESIGN.md section 5, C17",
     "technique": "explicit-state BFS over histories of startTestRun/tags/startTest/outcome/stopTest calls replayed on fresh real result objects and adapter chains, canonical-state merging, G/L tag-scope reference model compared at every state",
-    "level_text": "All well-formed call histories up to the depth bound (8 quick, 11 thorough) over 15 operations (8 tag changes over {a,b}, two outcomes (and a second outcome for the same test), the startTest-less addSkip+stopTest pair, a tagged PlaceHolder) are applied to every result class and adapter chain in scope; current_tags is compared with the model in every reachable state and the tags observed by wrapped results / stream consumers at each outcome are compared with the reporter's model tags.",
+    "level_text": "All well-formed call histories up to the depth bound (8 quick, 11 thorough) over 15 operations (8 tag changes over {a,b}, two outcomes (and a second outcome for the same test), the startTest-less addSkip+stopTest pair, a lone class-level addSkip, a tagged PlaceHolder; the sets passed to tags() are cleared and refilled by the caller afterwards) are applied to every result class and adapter chain in scope (incl. testtools' own recording double); current_tags is compared with the model in every reachable state and the tags observed by wrapped results / stream consumers at each outcome are compared with the reporter's model tags.",
     "level_note": "Trusts the harness recorders and the 10-line tag model; tag universe {a,b,p,x}; histories are well-formed (one or two outcomes per test, startTestRun only outside tests).",
 }
 
